@@ -485,8 +485,13 @@ def it_next(it, st, itv, fr):
                 yield s2, It('chars', s, None, pos + 1), z3.ZeroExt(24, s.bytes[pos])
             else:
                 yield s2, itv, None
+    elif kind in EXTRA_ITER_KINDS:
+        yield from EXTRA_ITER_KINDS[kind](it, st, itv, fr)
     else:
         raise Unsupported('iterator kind ' + kind)
+
+
+EXTRA_ITER_KINDS = {}
 
 
 def as_iter(it, st, v):
@@ -796,6 +801,15 @@ def M_sort_by(it, ctx, args, st):
             else:
                 yield from run(s2, acc2, rest[1:])
     yield from run(st, [], list(seq.items))
+
+
+def M_chars_as_str(it, ctx, args, st):
+    itv = itval(st, args[0])
+    kind, src, f, pos, cur = itv.fields
+    if kind != 'chars':
+        raise Unsupported('Chars::as_str on ' + kind)
+    # remaining text (positions consumed so far are below the length on this path)
+    yield st, st.ref(bstr_slice(src, bv(pos), src.len))
 
 
 def M_chars(it, ctx, args, st):
@@ -1164,7 +1178,7 @@ MODELS = [
     (P + r'str::<impl str>::len', M_str_len), (P + r'str::<impl str>::is_empty', M_str_is_empty),
     (P + r'str::<impl str>::as_bytes', M_str_as_bytes), (P + r'str::<impl str>::trim_end_matches::<char>', M_trim_end_matches_char),
     (P + r'str::<impl str>::contains::<char>', M_str_contains_char),
-    (P + r'str::<impl str>::parse::<.*>', M_str_parse), (P + r'str::<impl str>::chars', M_chars),
+    (P + r'str::<impl str>::parse::<.*>', M_str_parse), (P + r'str::<impl str>::chars', M_chars), (P + r'str::Chars::as_str', M_chars_as_str),
     (r'<&*(?:' + P + r'string::String|str) as ' + P + r'cmp::PartialEq(<&*(?:' + P + r'string::String|str)>)?>::eq', M_str_eq),
     (r'<&*(?:' + P + r'string::String|str) as ' + P + r'cmp::PartialEq(<&*(?:' + P + r'string::String|str)>)?>::ne', M_str_ne),
     (r'<&?str as ' + P + r'cmp::PartialEq(<&?str>)?>::eq', M_str_eq),
